@@ -247,7 +247,7 @@ PROPS["C09"] = {
 
 PROPS["C12"] = {
     "level": "model_checking",
-    "claim": "a catalogue of 12 session scripts (RS-2^8 encoder / matrix decoder, RS-2^m m=4 SAS decoder, m=8 encoder, LDPC encoder, LDPC decoder ending in ML decoding that consumes rand(), LDPC even-N1 DWS decoder, two rejected LDPC configurations, 2D encoder, verbose sessions): for every unordered pair (a script with itself included) ALL interleavings of the two call sequences, for every triple all interleavings with at most 3 (quick) / 5 (thorough) context switches; rand() is a global-counter generator; every session's observation trace (statuses, completion, control answers, bytes of built and decoded symbols) must equal the trace of the same script alone in a pristine forked process",
+    "claim": "a catalogue of 73 session scripts: 25 hand-written (RS-2^8 encoder / matrix decoder, RS-2^m m=4 SAS decoder, m=8 encoder, LDPC encoders and decoders incl. one ending in ML decoding that consumes rand(), even-N1 decoders rebuilding through the null last symbol with short and long symbols, late control-parameter queries, callbacks with and without repair callback, a 297-deep peeling cascade, 300-symbol equations, two rejected LDPC configurations, 2D encoder, verbose sessions) and 48 generated (RS-2^8 / RS-2^m m=8 / m=4 / LDPC x four shapes sharing k or n-k x encoder / decoder / one session in both roles): for every unordered pair (a script with itself included, then fed from the same application buffers) ALL interleavings of the two call sequences; for every triple and quadruple of the hand-written ones all interleavings with at most 3 (quick) / 5 (thorough) context switches; every combination in its own process; rand() is a global-counter generator; every session's observation trace (statuses, completion, control answers, bytes of built and decoded symbols) must equal the trace of the same script alone in a pristine forked process",
     "technique": "exhaustive enumeration of all interleavings (pairs) / context-switch-bounded interleavings (triples) of session call sequences on the real library, compared with stand-alone runs",
     "rule": "one execution = one interleaving schedule; states = script combinations, transitions = API calls executed",
     "bounds": {"quick": "78 pairs x all interleavings (up to C(15,7)); 352 triples x <=3 switches", "thorough": "78 pairs; 364 triples x <=5 switches; also under ASan"},
